@@ -607,6 +607,10 @@ var c12ProgRoutes = []c12Route{
 	{"lit-let", "lit", "let", false},
 	{"json-as", "json", "as", true},
 	{"json-let", "json", "let", false},
+	// the value is read back from an any-object member: the static type of the initialiser is
+	// `?any` (an `any` hidden beneath an option), the annotation an option type
+	{"get-let", "get", "let", false},
+	{"get-as", "get", "as", true},
 }
 
 // jsonExact: v is exactly what the untyped JSON reader produces for its own JSON text
@@ -635,6 +639,21 @@ func jsonExact(v *mval) bool {
 func c12Program(rt c12Route, v *mval, t *mtype) (text string, ok bool, why string) {
 	pre, src := "", "hv"
 	switch rt.Src {
+	case "get":
+		if t.K != mkOpt {
+			return "", false, "target-is-not-an-option"
+		}
+		if v.K == mOpt {
+			return "", false, "option-inside-the-box"
+		}
+		lit, ok := srcLit(v)
+		if !ok {
+			return "", false, "no-literal"
+		}
+		if _, ok := staticType(v); !ok {
+			return "", false, "heterogeneous-literal"
+		}
+		pre, src = "let box = new { ? };\n    box.set(\"f\", "+lit+");\n    ", "box.get(\"f\")"
 	case "lit":
 		lit, ok := srcLit(v)
 		if !ok {
@@ -663,6 +682,15 @@ func c12Program(rt c12Route, v *mval, t *mtype) (text string, ok bool, why strin
 	use := probe(t, "y", 1)
 	text = fmt.Sprintf("fn main() {\n    %stry {\n        %s\n        print(\"ok \");\n        %s\n    } catch e {\n        print(\"err<\" + e.message + \">\");\n    }\n    println(\"|after\", 1 + 2);\n}\n", pre, bind, use)
 	return text, true, ""
+}
+
+// c12RouteValue: the value that reaches the cast on this route (an any-object member read wraps
+// it in an option).
+func c12RouteValue(rt c12Route, v *mval) *mval {
+	if rt.Src == "get" {
+		return vSome(v)
+	}
+	return v
 }
 
 const c12Tail = "|after 3\n"
@@ -775,7 +803,7 @@ func c12ProgScenario(rt c12Route) Scenario {
 				r.Note("rejected-by-analyzer:"+rt.Name, 1)
 				return
 			}
-			ex := c12Expectation(v, t, rt.Allow)
+			ex := c12Expectation(c12RouteValue(rt, v), t, rt.Allow)
 			o := runOn(backend, a, r)
 			fails, out := c12JudgeProgram(ex, t, v, o, backend == "vm")
 			c12Report(r, fails, []string{"backend:" + backend, "route:" + rt.Name}, v, t, ex, "// backend: "+backend+"\n"+cas)
